@@ -72,6 +72,14 @@ func runChecks(m *Model, o Options) int {
 	}
 	cache := map[string]*Results{}
 	exit := 0
+	if o.Prop == "rules" {
+		var all []string
+		for _, rd := range ruleTable {
+			all = append(all, rd.Name)
+		}
+		propTable["rules"] = PropDef{Title: "every implemented rule (debug)", Rules: all, Explanation: "debug", NotDecided: "debug"}
+		props = []string{"rules"}
+	}
 	for _, p := range props {
 		pd, ok := propTable[p]
 		if !ok {
